@@ -84,13 +84,34 @@ def oracle(case, lines, insts):
     msg_frames = []
     cts_fed = []           # block sizes of every valid ContinueToSend fed so far
     total_cf = 0
+    # Frames are consumed from the reception source in order; ProcessStats.received says how many were read by each process() call.
+    # Budget of Consecutive Frames: every valid ContinueToSend consumed adds its block size (0 = no limit), a new First Frame
+    # resets it (grants never carry over to the next message); a Wait, Overflow or undecodable frame adds nothing.  This is a
+    # sound upper bound (a ContinueToSend received mid-block replaces the rest of the old grant, it does not add to it).
+    fed = []               # ('cts', bs) | ('other',) in feeding order
+    consumed = 0
+    budget = 0
+    INF = float('inf')
     for op, l in zip(case['ops'], lines):
         evs, st = split_line(l)
         if op[1] == 'rx':
             d = unhx(op[4])[len(pfx):]
-            if len(d) >= 3 and d[0] == 0x30 and (d[2] <= 0x7F or 0xF1 <= d[2] <= 0xF9):
+            mine = int(op[2]) == rid and int(op[3]) == int(ext) and unhx(op[4])[:len(pfx)] == pfx
+            if mine and len(d) >= 3 and d[0] == 0x30 and (d[2] <= 0x7F or 0xF1 <= d[2] <= 0xF9):
                 cts_fed.append(d[1])
+                fed.append(('cts', d[1]))
+            else:
+                fed.append(('other',))
             continue
+        granted_now = 0        # what the ContinueToSend frames consumed during THIS call grant (they may be read after a First Frame
+        for e in evs:          # emitted by the same call: process() loops between reception and transmission)
+            if e.startswith('stats:'):
+                r = int(e[6:].split(',')[0])
+                for item in fed[consumed:consumed + r]:
+                    if item[0] == 'cts':
+                        granted_now = INF if item[1] == 0 else granted_now + item[1]
+                consumed += r
+        budget += granted_now
         for e in evs:
             if not e.startswith('tx:'):
                 continue
@@ -98,20 +119,21 @@ def oracle(case, lines, insts):
             t = d[tplen] >> 4 if len(d) > tplen else -1
             if t in (0, 1):
                 msg_frames.append([e[3:]])
+                budget = granted_now
             elif t == 2:
                 if not msg_frames:
                     fails.append(('C04:consecutive-frame-without-first-frame', e))
                     continue
                 msg_frames[-1].append(e[3:])
                 total_cf += 1
-                # sound necessary conditions (the exact block accounting is the proved model's, compared by correspondence):
-                # every message that got a Consecutive Frame needed its own ContinueToSend, and the Consecutive Frames emitted
-                # never exceed the sum of the block sizes granted (0 = unlimited)
+                budget -= 1
+                if budget < 0:
+                    fails.append(('C04:block-size-exceeded', 'a Consecutive Frame left although the ContinueToSend frames consumed since the First Frame '
+                                  'grant no more (frame %d of the message; ContinueToSend block sizes fed so far %s)' % (len(msg_frames[-1]) - 1, cts_fed[-6:])))
+                    budget = INF        # report once per case
                 with_cf = sum(1 for m_ in msg_frames if len(m_) > 1)
                 if with_cf > len(cts_fed):
                     fails.append(('C04:consecutive-frame-before-continue-to-send', '%d messages got Consecutive Frames with only %d ContinueToSend received' % (with_cf, len(cts_fed))))
-                elif 0 not in cts_fed and total_cf > sum(cts_fed):
-                    fails.append(('C04:block-size-exceeded', '%d consecutive frames, block sizes granted sum to %d' % (total_cf, sum(cts_fed))))
     # each emitted message is a prefix of the reference segmentation of a request, requests taken in order (an aborted request may
     # have emitted nothing)
     nxt = 0
